@@ -758,6 +758,52 @@ fn complex_scaled_space(ctx: &Ctx, cfgs: &[(Cfg, usize)]) {
     }
 }
 
+/// scalar operations on Banded<f64> with data on which x / s and x * (1 / s) differ: every in-band entry of b / s, b /= s, b * s, b *= s is
+/// the correctly rounded x op s (what the dense matrix with the same band gives), bit for bit
+fn f64_scalar_space(ctx: &Ctx) {
+    let sl = [49.0f64, 5.0, 7.0, 10.0, 3.0, 1.0, -0.3];
+    let sd = [3.0f64, 7.0, 49.0, 10.0, 0.1, -1.5];
+    let cfgs = [Cfg { n: 3, m1: 1, m2: 1 }, Cfg { n: 4, m1: 2, m2: 0 }, Cfg { n: 4, m1: 0, m2: 1 }, Cfg { n: 2, m1: 1, m2: 1 }];
+    for c in cfgs {
+        let sl2 = slots(c);
+        let shifts = sl.len() as u64;
+        ctx.lattice(
+            &format!("Banded<f64> n={} m1={} m2={}: scalar division / multiplication bit for bit, 7 rotations of {{49,5,7,10,3,1,-0.3}} x 6 scalars", c.n, c.m1, c.m2),
+            shifts * sd.len() as u64,
+            |idx| format!("rotation {} scalar {}", idx / 6, sd[(idx % 6) as usize]),
+            |idx, acc| {
+                let rot = (idx / 6) as usize;
+                let s = sd[(idx % 6) as usize];
+                acc.nontriv("banded f64 scalar operation");
+                judge(acc, idx, || format!("banded f64 n={} m1={} m2={} rotation {} scalar {}", c.n, c.m1, c.m2, rot, s), || {
+                    let mut b = Banded::new(c.n, c.m1, c.m2, 0.0f64);
+                    let mut vals = vec![];
+                    for (k, &(i, j)) in sl2.iter().enumerate() {
+                        let v = sl[(k + rot) % sl.len()];
+                        b[(i, j)] = v;
+                        vals.push(v);
+                    }
+                    let d1 = &b / s;
+                    let d2 = b.clone() / s;
+                    let mut d3 = b.clone();
+                    d3 /= s;
+                    let m1 = &b * s;
+                    let mut m3 = b.clone();
+                    m3 *= s;
+                    for (k, &(i, j)) in sl2.iter().enumerate() {
+                        let (wq, wp) = (vals[k] / s, vals[k] * s);
+                        ensure!(d1[(i, j)].to_bits() == wq.to_bits(), "(&b / {})[({},{})] = {:e} but {} / {} = {:e}", s, i, j, d1[(i, j)], vals[k], s, wq);
+                        ensure!(d2[(i, j)].to_bits() == wq.to_bits(), "(b / {})[({},{})] = {:e} expected {:e}", s, i, j, d2[(i, j)], wq);
+                        ensure!(d3[(i, j)].to_bits() == wq.to_bits(), "(b /= {})[({},{})] = {:e} expected {:e}", s, i, j, d3[(i, j)], wq);
+                        ensure!(m1[(i, j)].to_bits() == wp.to_bits() && m3[(i, j)].to_bits() == wp.to_bits(), "b * {} at ({},{})", s, i, j);
+                    }
+                    Ok(())
+                });
+            },
+        );
+    }
+}
+
 // --- E2 histories -------------------------------------------------------------------------------------
 #[derive(Clone)]
 struct St {
@@ -987,6 +1033,7 @@ fn main() {
     f64_spaces(&ctx, ctx.pick(3, 4), ctx.pick(300_000u64, 20_000_000u64));
     scaled_f64_space(&ctx, ctx.pick(3, 4));
     mixed_f64_space(&ctx);
+    f64_scalar_space(&ctx);
     complex_space(&ctx, ctx.pick(3, 3), ctx.pick(100_000u64, 11_000_000u64));
     {
         let mut cfgs = vec![(Cfg { n: 1, m1: 0, m2: 0 }, 5usize)];
